@@ -180,7 +180,7 @@ def main():
                     discharged += 1
                 else:
                     broken.append("theorem:%s (%s)" % (t, det))
-        hits = common.scan_lean_sources()
+        hits = common.scan_lean_sources(modules + ["Drivers." + prop])
         if hits:
             broken.append("forbidden constructs: " + "; ".join(hits[:10]))
             discharged = 0
@@ -209,7 +209,11 @@ def main():
 
     # ---------------- 3. failing-input search when a proof or the tie broke --------------
     searched = False
-    if (broken or res.disagreements) and not res.oracle_failures and harness_error is None:
+    known0 = load_known()
+    ksig0 = {k["signature"] for k in known0.get("findings", []) if k.get("property") == prop}
+    unknown_failures = [f for f in res.oracle_failures if f.get("signature") not in ksig0]
+    unexplained0 = [d for d in res.disagreements if d.get("signature") not in ksig0]
+    if (broken or unexplained0) and not unknown_failures and harness_error is None:
         searched = True
         sctx = Ctx(prop, tier, seed + 7919, None if (tie_broken or drv is None) else drv, mode="search")
         sres = Result()
